@@ -9,7 +9,10 @@ import (
 	. "verifh/hc"
 )
 
-type gen struct{ r *Rand }
+type gen struct {
+	r              *Rand
+	forceRootWhich int // >= 0: discriminant for the next root struct tree (depth 0)
+}
 
 func (g *gen) bytesVal(max int) []byte {
 	n := g.r.Intn(max + 1)
@@ -315,6 +318,9 @@ func (g *gen) fillNode(mn *mnode, s *aStruct, depth int) {
 		if mn.wk == 'x' && g.r.Intn(8) != 0 {
 			which = mn.fixed
 		}
+		if depth == 0 && g.forceRootWhich >= 0 {
+			which = uint16(g.forceRootWhich)
+		}
 		putU16(s.data, int(mn.discOff)*2, which)
 	}
 	for _, f := range mn.fields {
@@ -354,6 +360,50 @@ func (g *gen) fillNode(mn *mnode, s *aStruct, depth int) {
 	}
 }
 
+// upgradedList: a foreign-encoded list (Cap'n Proto list upgrade): the List(T) field arrives as a
+// composite list whose elements start with the T (1..2 data words, 0..2 pointers; for pointer
+// element types the element's first pointer is the T).  Also generated for List(Bool), where
+// the upgrade is not legal and every reader shows false.
+func (g *gen) upgradedList(e *mtype, n, depth int) *aPtr {
+	dw := 1 + g.r.Intn(2)
+	pc := g.r.Intn(3)
+	switch e.kind {
+	case 'T', 'D', 'L', 'A':
+		if g.r.Intn(5) != 0 {
+			pc = 1 + g.r.Intn(2)
+		}
+		if g.r.Intn(3) == 0 {
+			dw = 0
+		}
+	}
+	if n == 0 && g.r.Bool() {
+		n = 1
+	}
+	p := &aPtr{kind: 'C'}
+	for i := 0; i < n; i++ {
+		st := &aStruct{data: quietWords(g.dataBytes(dw * 8))}
+		for k := 0; k < pc; k++ {
+			q := &aPtr{kind: 'N'}
+			if depth <= 3 {
+				switch g.r.Intn(4) {
+				case 0:
+				case 1:
+					q = g.randPtr(depth + 1)
+				default:
+					if e.kind == 'T' || e.kind == 'D' || e.kind == 'L' {
+						q = g.ptrFor(e, depth+1)
+					} else {
+						q = g.randPtr(depth + 1)
+					}
+				}
+			}
+			st.ptrs = append(st.ptrs, q)
+		}
+		p.structs = append(p.structs, st)
+	}
+	return p
+}
+
 func (g *gen) ptrFor(mt *mtype, depth int) *aPtr {
 	switch mt.kind {
 	case 'T':
@@ -374,6 +424,9 @@ func (g *gen) ptrFor(mt *mtype, depth int) *aPtr {
 			n = 0
 		}
 		e := mt.elem
+		if e.kind != 'S' && g.r.Intn(10) < 3 {
+			return g.upgradedList(e, n, depth)
+		}
 		switch e.kind {
 		case 'b':
 			p := &aPtr{kind: 'b', bits: []bool{}}
